@@ -87,6 +87,34 @@ def brief(rec):
             "left": rec.get("obs_left"), "note": rec.get("note"), "fault": rec.get("fault")}
 
 
+def control_field_sweep(cases, thorough, seed):
+    """For every command: the frame in place of the acknowledgement runs over the control fields 80 xx and 84 xx (every NACK code; in
+    thorough also xx 00 / xx 1E / xx FF for every class), and a NACK with every code stands in place of the first reply. Built from a
+    fault-free model case of the command (its request, acknowledgement and replies); judged by TraceSequence like every other record."""
+    base = {}
+    for c in cases:
+        if c["cmd"] in base or len(c["frames"]) < 2:
+            continue
+        if any(e["e"] == "y" and e["a"] == "err" for e in c["log"]) or c["frames"][0]["bytes"] != [128, 0, 0] or any(f["trunc"] for f in c["frames"]):
+            continue
+        base[c["cmd"]] = c
+    cfs = [(a, b) for a in (0x80, 0x84) for b in range(256)]
+    if thorough:
+        cfs += [(a, b) for a in range(256) for b in (0x00, 0x1e, 0xff) if a not in (0x80, 0x84)]
+    else:
+        import random
+        rnd = random.Random(seed)
+        cfs += [(rnd.randrange(256), rnd.randrange(256)) for _ in range(64)]
+    out = []
+    for cmd, c in sorted(base.items()):
+        keep = {k: v for k, v in c.items() if k not in ("frames", "log", "left")}
+        for a, b in cfs:
+            out.append(dict(keep, frames=[{"bytes": [a, b, 0], "trunc": False}] + c["frames"][1:], fault="cf-sweep", chunk=0))
+        for code in range(256):
+            out.append(dict(keep, frames=[c["frames"][0], {"bytes": [0x84, code, 0], "trunc": False}] + c["frames"][1:], fault="nack-sweep", chunk=0))
+    return out
+
+
 def run_sequence_check(chk, prefix, what):
     """prefix = 'P05' or 'P06': the flags this property claims."""
     wd = vlib.workdir(chk.pid)
@@ -120,6 +148,13 @@ def run_sequence_check(chk, prefix, what):
     rcases = vlib.read_ndjson(rc)
     rout = replay(binary, rcases, wd, "rand")
     rflag, rn = judge_traces(chk, rout, wd, "rand", shard=500)
+    # impl -> spec: control-field sweep at the acknowledgement position and NACK codes at the first reply position, per command
+    sweep = control_field_sweep(cases, thorough, chk.seed)
+    sout = replay(binary, sweep, wd, "sweep")
+    sflag, sn = judge_traces(chk, sout, wd, "sweep", shard=1500)
+    rflag = rflag + sflag
+    rn += sn
+    chk.cov["control_field_sweep_records"] = sn
     chk.cov["traces_validated_against_impl"] = n + rn
     chk.cov["evaluations"] = n + rn
     chk.cov["distinct_nontrivial"] = n
